@@ -3,10 +3,10 @@ from __future__ import annotations
 
 import ast
 
-from .. import memo
+from .. import memo, shape
 from ..flow import call_name, dotted, norm, writes_in
 from ..index import AnalysisError, walk_local
-from ..lib import (cfg_of, defs_of, edge_leads_only_to_raise, live, nodes_calling, nodes_with,
+from ..lib import (cfg_of, defs_of, edge_leads_only_to_raise, has, live, nodes_calling, nodes_with,
                    return_nodes, undominated, witness)
 
 PR = "pint.facets.plain.registry"
@@ -27,6 +27,94 @@ EXPLANATION = (
     "spellings or collisions (data dependent).")
 EXPLANATION += ' Also decided (rules added after the second round of seeded changes): on every path of _helper_single_adder that stores a spelling the spelling is also indexed (local aliases of the unit table resolved at the call sites).'
 
+
+
+# ---------------------------------------------------------------- role helpers (no name of a local variable below)
+def emptiness(atom, is_value):
+    """For a positive atom of a test: the truth value of the atom under which a value recognised by `is_value` is known
+    to be EMPTY (`X` / `len(X) > 0` / `len(X) >= 1`: False; `len(X) == 0` / `len(X) < 1`: True), else None."""
+    if is_value(atom):
+        return False
+    if isinstance(atom, ast.Compare) and len(atom.ops) == 1:
+        l, op, r = atom.left, atom.ops[0], atom.comparators[0]
+        if isinstance(r, ast.Call) and not isinstance(l, ast.Call):          # `0 == len(X)`, `0 < len(X)`
+            l, r = r, l
+            op = {ast.Lt: ast.Gt, ast.Gt: ast.Lt, ast.LtE: ast.GtE, ast.GtE: ast.LtE}.get(type(op), type(op))()
+        if isinstance(l, ast.Call) and isinstance(l.func, ast.Name) and l.func.id == "len" and len(l.args) == 1 and is_value(l.args[0]) and isinstance(r, ast.Constant):
+            table = {(ast.Eq, 0): True, (ast.Lt, 1): True, (ast.LtE, 0): True, (ast.Gt, 0): False, (ast.GtE, 1): False}
+            return table.get((type(op), r.value))
+    return None
+
+
+def empty_edges(cfg, is_value) -> list:
+    """CFG edges (test, label) on which a value recognised by `is_value` is known to be empty."""
+    out = []
+    for truth in (True, False):
+        out += shape.guard_edges(cfg, lambda a_: emptiness(a_, is_value) is truth, want=truth)
+    return out
+
+
+def excluded_situation(atom, truth) -> list:
+    """A fact (atom, truth) written as the conjunction of [(positive atom, truth)] that it EXCLUDES: a plain atom known
+    to be `truth` excludes [(atom, not truth)]; `a and b` known False excludes [a, b]; `a or b` known True excludes
+    [not a, not b].  So `if p and x not in t: continue` and `if not p or x in t: <here>` state the same thing."""
+    if isinstance(atom, ast.BoolOp) and isinstance(atom.op, ast.And) and truth is False:
+        return list(shape.conjuncts(atom, "t"))
+    if isinstance(atom, ast.BoolOp) and isinstance(atom.op, ast.Or) and truth is True:
+        return list(shape.conjuncts(atom, "f"))
+    return [(atom, not truth)]
+
+
+def defaults_from(fn, param: str, default: str):
+    """The node at which parameter `param` is replaced by `default` exactly when it is None: a conditional expression
+    `default if param is None else param` (either polarity) or an assignment `param = default` that executes only
+    where `param is None` holds.  None if there is no such node."""
+    def is_none(a_):
+        return shape.match(f"{param} is None", a_) is not None
+    for x in ast.walk(fn):
+        if isinstance(x, ast.IfExp):
+            cj = list(shape.conjuncts(x.test, "t"))
+            if len(cj) == 1 and is_none(cj[0][0]):
+                dflt, kept = (x.body, x.orelse) if cj[0][1] else (x.orelse, x.body)
+                if norm(dflt) == default and norm(kept) == param:
+                    return x
+        elif isinstance(x, ast.Assign) and len(x.targets) == 1 and norm(x.targets[0]) == param and norm(x.value) == default and shape.holds_at(x, fn, is_none, True):
+            return x
+    return None
+
+
+def search_calls(fn) -> list:
+    """[(call, string argument, case-sensitivity argument or None)] for the calls of self.parse_unit_name in `fn`."""
+    out = []
+    for c in ast.walk(fn):
+        if isinstance(c, ast.Call) and call_name(c) == "parse_unit_name" and isinstance(c.func, ast.Attribute) and norm(c.func.value) == "self" and c.args:
+            kw = {k.arg: k.value for k in c.keywords}
+            out.append((c, c.args[0], c.args[1] if len(c.args) > 1 else kw.get("case_sensitive")))
+    return out
+
+
+class FirstReading:
+    """The roles in get_name / get_symbol: CAND = the tuple of readings `self.parse_unit_name(<param>, case_sensitive)`,
+    prefix = CAND[0][0], unit = CAND[0][1] - whatever the locals that hold them are called."""
+
+    def __init__(self, fn, param="name_or_alias"):
+        self.fn = fn
+        self.calls = [(c, s, cs) for (c, s, cs) in search_calls(fn) if norm(s) == param]
+        self.cands = {norm(shape.resolve(c, fn)) for (c, s, cs) in self.calls}
+        self.prefixes = {f"{c}[0][0]" for c in self.cands}
+        self.units = {f"{c}[0][1]" for c in self.cands}
+
+    def r(self, e) -> str:
+        return shape.rnorm(e, self.fn)
+
+    def is_cand(self, e) -> bool:
+        return isinstance(e, ast.expr) and self.r(e) in self.cands
+
+    def show(self, text: str) -> str:
+        """resolved text with the roles written by name (for messages)"""
+        for c in sorted(self.cands, key=len, reverse=True):
+            text = text.replace(f"{c}[0][0]", "<prefix>").replace(f"{c}[0][1]", "<unit>").replace(c, "<candidates>")
+        return text
 
 
 def casei_writers_rule(ck, ix):
@@ -53,7 +141,7 @@ def casei_writers_rule(ck, ix):
                     ck.check(casei == "None", "G-MEMO-FILL", f"casei-index|non-unit-table|writer={f.qualname.split('::')[1]}", f.loc(c), "other tables have no case-insensitive index", f"`{norm(c)}` indexes a non-unit table in _units_casei")
     ck.floor("G-MEMO-FILL", n, 3, "adder calls")
     fi = ix.func(PR, "GenericPlainRegistry._helper_single_adder")
-    ck.check("casei_target_dict[key.lower()].add(key)" in norm(fi.node), "G-MEMO-FILL", "casei-index|lowercased-key-maps-to-spelling", fi.loc(), "index maps lower-cased spelling to the spelling", "the case-insensitive index is no longer filled with key.lower() -> key")
+    ck.check(has(ix, fi, "casei_target_dict[key.lower()].add(key)"), "G-MEMO-FILL", "casei-index|lowercased-key-maps-to-spelling", fi.loc(), "index maps lower-cased spelling to the spelling", "the case-insensitive index is no longer filled with key.lower() -> key")
     ck.analysed(fi)
     cfg = cfg_of(fi)
     stores, adds = [], []
@@ -62,12 +150,9 @@ def casei_writers_rule(ck, ix):
             stores += cfg.nodes_for_ast(nd)
         if p.startswith("casei_target_dict"):
             adds += cfg.nodes_for_ast(nd)
-    none_edges = []
-    for n in cfg.nodes:
-        if n.kind == "test" and norm(n.ast) in ("casei_target_dict is not None", "casei_target_dict"):
-            none_edges.append((n.id, "f"))
-        if n.kind == "test" and norm(n.ast) in ("casei_target_dict is None", "not casei_target_dict"):
-            none_edges.append((n.id, "t"))
+    # edges on which the table is known to have no index (`casei_target_dict is None` holds / `casei_target_dict` is falsy)
+    none_edges = shape.guard_edges(cfg, lambda a_: shape.match("casei_target_dict is None", a_) is not None, want=True) \
+        + shape.guard_edges(cfg, lambda a_: isinstance(a_, ast.Name) and a_.id == "casei_target_dict", want=False)
     ck.check(bool(stores) and bool(adds), "G-MEMO-FILL", "casei-index|single-adder-writes-both", fi.loc(), "the adder writes table and index", "_helper_single_adder no longer writes both the table and the index")
     for s_ in live(cfg, stores):
         p1 = cfg.path(cfg.entry, [s_], avoid=adds, avoid_edges=none_edges)
@@ -120,6 +205,148 @@ def ordered_candidates_rule(ck, ix):
                      f"`for ... in {norm(it)}` iterates over a set of spellings: the order of the candidate readings, and with it the reading chosen when a case-insensitive spelling is ambiguous (Ms: megasecond / megasiemens), depends on PYTHONHASHSEED")
     ck.floor("G-DET", n, 1, "iterations over set-valued spelling tables on the lookup path")
 
+def parse_unit_name_rule(ck, ix):
+    """parse_unit_name hands `unit_name` and the case-sensitivity flag - the registry's default when the caller gave
+    None - to _yield_unit_triplets and returns the deduplicated readings."""
+    fi = ix.func(PR, "GenericPlainRegistry.parse_unit_name")
+    ck.analysed(fi)
+    fn = fi.node
+    dflt = defaults_from(fn, "case_sensitive", "self.case_sensitive")
+    rets = shape.returns_of(fn)
+    ck.floor("G-PROV", len(rets), 1, "value returned by parse_unit_name")
+    # the flag handed on is the defaulted one: the conditional expression itself (through any temporary), or the parameter
+    # after `if case_sensitive is None: case_sensitive = self.case_sensitive`
+    passed = (norm(dflt),) if isinstance(dflt, ast.IfExp) else ("case_sensitive",)
+    ok = dflt is not None
+    for r in rets:
+        v = shape.resolve(r.value, fn)
+        b = shape.match("self._dedup_candidates(self._yield_unit_triplets(unit_name, _CS))", v) or shape.match("self._dedup_candidates(self._yield_unit_triplets(unit_name, case_sensitive=_CS))", v)
+        ok = ok and b is not None and b["_CS"] in passed
+    ck.check(ok, "G-PROV", "parse_unit_name|defaults-and-dedup", fi.loc(),
+             "registry default for case sensitivity; candidates deduplicated", "parse_unit_name no longer defaults case_sensitive from the registry / dedups the candidates")
+
+
+def yield_triplets_rule(ck, ix):
+    """_yield_unit_triplets, by role: S, P = the variables of the loop over product(self._suffixes, self._prefixes);
+    stem = unit_name with P stripped in front and (when S is not empty) S stripped at the end; a reading is yielded
+    either for the stem itself (case-sensitive) or for each defined spelling of the case-insensitive index entry of the
+    lower-cased stem."""
+    fi = ix.func(PR, "GenericPlainRegistry._yield_unit_triplets")
+    ck.analysed(fi)
+    fn, dfs, cfg = fi.node, defs_of(fi), cfg_of(fi)
+    R = lambda e: shape.rnorm(e, fn)
+    ys = [y for y in walk_local(fn) if isinstance(y, ast.Yield)]
+    ck.check(len(ys) >= 1, "G-TWIN", "_yield_unit_triplets|two-branches", fi.loc(), "candidate triplets are yielded (each site checked below)", "no candidate triplet is yielded any more")
+    cs_tests = [t for t in ast.walk(fn) if isinstance(t, (ast.If, ast.IfExp)) and any(isinstance(x, ast.Name) and x.id == "case_sensitive" for x in ast.walk(t.test))]
+    ck.check(len(cs_tests) >= 1, "G-TWIN", "_yield_unit_triplets|case-sensitivity-distinguished", fi.loc(), "case-sensitive and case-insensitive lookups are distinguished", "the case_sensitive flag is no longer consulted")
+    # the loop over all (suffix, prefix) pairs, suffix-major (the order of the readings is part of the behaviour)
+    prod = [l for l in walk_local(fn) if isinstance(l, ast.For) and isinstance(l.target, ast.Tuple) and len(l.target.elts) == 2 and all(isinstance(e, ast.Name) for e in l.target.elts)
+            and R(l.iter) in ("itertools.product(self._suffixes, self._prefixes)", "product(self._suffixes, self._prefixes)")]
+    if len(prod) != 1 or not ys:
+        ck.fail("G-PROV", "_yield_unit_triplets|all-prefix-suffix-combinations", fi.loc(), "candidates are no longer produced by one loop over itertools.product(self._suffixes, self._prefixes)")
+        return
+    S, P = [e.id for e in prod[0].target.elts]
+    is_S = lambda a_: isinstance(a_, ast.Name) and a_.id == S
+    is_P = lambda a_: isinstance(a_, ast.Name) and a_.id == P
+    orig = lambda a_: a_ if hasattr(a_, "_parent") else getattr(getattr(a_, "left", None), "_parent", a_)     # atoms() builds the positive form of `a != b` afresh
+    framed = lambda y: shape.holds_at(y, fn, lambda a_: R(a_) == f"unit_name.startswith({P})", True) and shape.holds_at(y, fn, lambda a_: R(a_) == f"unit_name.endswith({S})", True)
+    ck.check(all(framed(y) for y in ys), "G-PROV", "_yield_unit_triplets|all-prefix-suffix-combinations", fi.loc(), "all suffix x prefix combinations that frame the string", "candidates are no longer produced for exactly the (suffix, prefix) pairs that frame the string")
+    # the stem
+    CUT, STEM = f"unit_name[len({P}):]", f"unit_name[len({P}):][:-len({S})]"
+    slices = [x for x in walk_local(fn) if isinstance(x, ast.Subscript) and isinstance(x.slice, ast.Slice)]
+    texts = {R(x) for x in slices}
+    plural_only = all(shape.holds_at(x, fn, is_S, True) for x in slices if R(x) == STEM)
+    ck.check(CUT in texts and STEM in texts and plural_only, "G-PROV", "_yield_unit_triplets|strips-prefix-and-suffix", fi.loc(), "prefix and suffix are stripped exactly",
+             f"prefix/suffix stripping changed (off-by-one?): {sorted(norm(x) for x in slices)}" if plural_only else "the suffix is stripped although it may be empty (`x[:-0]` is empty)")
+    stem_names = {n for n, ds in dfs.defs.items() if n not in dfs.params and ds and all(k == "assign" and v is not None and R(v) in (CUT, STEM) for (v, k, st) in ds)}
+    is_stem = lambda text: text in (CUT, STEM) or text in stem_names
+
+    def one_letter(a_):
+        """`len(<de-pluralised stem>) == 1`"""
+        b = shape.match("len(_X) == 1", a_)
+        if b is None:
+            return False
+        return R(a_.left.args[0]) == STEM or (b["_X"] in stem_names and shape.holds_at(orig(a_), fn, is_S, True))
+    yield_nodes = [i for y in ys for i in cfg.nodes_for_ast(getattr(y, "_parent", y))]
+    loop_nodes = [n.id for n in cfg.nodes if n.kind == "for" and n.stmt is prod[0]]
+    e1 = sorted(set(shape.guard_edges(cfg, one_letter, want=True)))
+    skipped = all(cfg.path(v, yield_nodes, avoid=loop_nodes) is None for (t, lab) in e1 for (v, l2) in cfg.succ[t] if l2 == lab and v not in loop_nodes)
+    ck.check(bool(e1) and bool(yield_nodes) and skipped, "G-PROV", "_yield_unit_triplets|no-plural-of-one-letter-units", fi.loc(), "one-letter stems are not de-pluralised",
+             "the one-letter plural exclusion is gone" if not e1 else "a one-letter de-pluralised stem still produces a reading")
+
+    # every reading: canonical names; unit looked up under the stem (then only a defined spelling may take a prefix) or under
+    # the defined spellings of the lower-cased stem
+    def index_entry(e):
+        """e is `self._units_casei.get(<stem>.lower(), <default>)`, possibly wrapped in sorted/list/tuple"""
+        while isinstance(e, ast.Call) and isinstance(e.func, ast.Name) and e.func.id in ("sorted", "list", "tuple") and e.args:
+            e = e.args[0]
+        b = shape.match("self._units_casei.get(_Y.lower(), _D)", shape.resolve(e, fn))
+        return b is not None and is_stem(b["_Y"])
+
+    def defined_spelling(a_):
+        b = shape.match("_X in self._units_casei.get(_Y.lower(), _D)", shape.resolve(a_, fn)) if isinstance(a_, ast.Compare) else None
+        return b is not None and is_stem(b["_X"]) and b["_Y"] == b["_X"]
+
+    def prefix_needs_defined_spelling(y):
+        for a_, truth in shape.facts_at(y, fn):
+            sit = excluded_situation(a_, truth)
+            if sit and all((t2 is True and is_P(x)) or (t2 is False and defined_spelling(x)) for x, t2 in sit):
+                return True
+        return False
+    def iterable_kinds(it, at, depth=3):
+        """What a loop over `it` runs over: [('index', site)] the defined spellings of the lower-cased stem,
+        [('stem', site)] a literal tuple/list of the stem (site = where that choice is made), or [('other', site)];
+        a local holding the iterable is followed to each of its assignments."""
+        if index_entry(it):
+            return [("index", at)]
+        e = it
+        while isinstance(e, ast.Call) and isinstance(e.func, ast.Name) and e.func.id in ("sorted", "list", "tuple") and e.args:
+            e = e.args[0]
+        if isinstance(e, (ast.Tuple, ast.List)) and e.elts and all(is_stem(R(el)) for el in e.elts):
+            return [("stem", at)]
+        if isinstance(e, ast.Name) and depth > 0:
+            ds = [(v, st) for (v, k, st) in dfs.defs.get(e.id, []) if k == "assign" and v is not None]
+            if ds and len(ds) == len(dfs.defs[e.id]) and e.id not in dfs.params:
+                return [r for (v, st) in ds for r in iterable_kinds(v, st, depth - 1)]
+        return [("other", at)]
+
+    def readings_of(x, at):
+        """the kinds of unit key `x` (text) used in the reading yielded at `at`"""
+        if is_stem(x):
+            return [("stem", at)]
+        binds = dfs.defs.get(x, []) if x.isidentifier() else []
+        if not binds or x in dfs.params or not all(k == "iter" for (it, k, st) in binds):
+            return [("other", at)]
+        return [r for (it, k, st) in binds for r in iterable_kinds(it, st)]
+    n_casei, unguarded, stray = 0, [], []
+    for y in ys:
+        v = shape.resolve(y.value, fn) if y.value is not None else None
+        tag = norm(y.value.elts[1])[:30] if isinstance(y.value, ast.Tuple) and len(y.value.elts) == 3 else (norm(v)[:30] if v is not None else "")
+        if not (isinstance(v, ast.Tuple) and len(v.elts) == 3):
+            ck.fail("G-TWIN", f"_yield_unit_triplets|canonical-unit-name|{tag}", fi.loc(y), f"`{norm(y)}` does not yield a (prefix name, unit name, suffix) triple")
+            continue
+        a, b, c = [norm(e) for e in v.elts]
+        ck.check(a == f"self._prefixes[{P}].name", "G-TWIN", f"_yield_unit_triplets|canonical-prefix-name|{tag}", fi.loc(y), "prefix reported by its canonical name", f"`{a}` is yielded as the prefix (must be the canonical name self._prefixes[{P}].name)")
+        bu = shape.match("self._units[_X].name", v.elts[1])
+        ck.check(bu is not None, "G-TWIN", f"_yield_unit_triplets|canonical-unit-name|{tag}", fi.loc(y), "unit reported by its canonical name", f"`{b}` is yielded as the unit (must be the canonical name)")
+        ck.check(c == f"self._suffixes[{S}]", "G-TWIN", f"_yield_unit_triplets|canonical-suffix|{tag}", fi.loc(y), "suffix reported canonically", f"`{c}` is yielded as the suffix")
+        if bu is None:
+            continue
+        for kind, site in readings_of(bu["_X"], y):
+            if kind == "index":
+                n_casei += 1
+            elif kind == "stem":
+                if not prefix_needs_defined_spelling(site):
+                    unguarded.append(site)
+            else:
+                stray.append((y, bu["_X"]))
+    ck.check(not unguarded, "G-DOM", "_yield_unit_triplets|prefix-only-on-defined-spellings", fi.loc(unguarded[0]) if unguarded else fi.loc(),
+             "a prefix is only applied to defined spellings (not to prefixed units registered on the fly)",
+             "prefixes are applied to any key of the unit table, including prefixed units registered on the fly: 'kilomillifoot' is accepted after 'millifoot' was looked up, a fresh registry rejects it")
+    ck.check(n_casei >= 1 and not stray, "G-PROV", "_yield_unit_triplets|casei-lookup-lowercases", fi.loc(stray[0][0]) if stray else fi.loc(), "case-insensitive lookup lower-cases the stem",
+             f"a reading is produced for `self._units[{stray[0][1]}]`, which is neither the stem nor a defined spelling of the lower-cased stem" if stray else "the case-insensitive lookup no longer lower-cases the stem")
+
+
 def run(ck, ix, tier):
     # ------------------------------------------------------------ get_name
     from ..lib import inlined as _inl
@@ -149,11 +376,14 @@ def run(ck, ix, tier):
             c = [c for c in ast.walk(cfg.nodes[s].ast) if isinstance(c, ast.Call) and call_name(c) == "parse_unit_name"][0]
             ck.check(norm(c.args[0]) == norm(key), "G-PROV", "get_name|same-string-looked-up-and-searched", fi.loc(c), "the same string is looked up and decomposed", f"exact lookup uses `{norm(key)}` but the search decomposes `{norm(c.args[0])}`")
             ck.check(len(c.args) > 1 and norm(c.args[1]) == "case_sensitive", "G-PROV", "get_name|case-sensitivity-forwarded", fi.loc(c), "case sensitivity forwarded", "get_name does not forward case_sensitive to parse_unit_name")
-    dl = [n.id for n in cfg.nodes if n.kind == "test" and norm(n.ast) == "name_or_alias == 'dimensionless'"]
-    ck.check(bool(dl) and all(undominated(cfg, exact + search, dl) is None for _ in [0]), "G-DOM", "get_name|dimensionless-first", fi.loc(), "'dimensionless' is answered before any lookup", "'dimensionless' is no longer handled before the lookups")
-    none = [n.id for n in cfg.nodes if n.kind == "test" and norm(n.ast) == "not candidates"]
-    for t in none:
-        p = edge_leads_only_to_raise(cfg, t, "t")
+    is_dimensionless = lambda a_: isinstance(a_, ast.Compare) and isinstance(a_.ops[0], ast.Eq) and sorted([norm(a_.left), norm(a_.comparators[0])]) == sorted(["name_or_alias", "'dimensionless'"])
+    dl = sorted({t for (t, lab) in shape.guard_edges(cfg, is_dimensionless, want=True)})
+    ck.check(bool(dl) and undominated(cfg, exact + search, dl) is None, "G-DOM", "get_name|dimensionless-first", fi.loc(), "'dimensionless' is answered before any lookup", "'dimensionless' is no longer handled before the lookups")
+    # roles: the readings = value of self.parse_unit_name(name_or_alias, ...); prefix / unit = first reading's 1st / 2nd field
+    rd = FirstReading(fi.node)
+    none = sorted(set(empty_edges(cfg, rd.is_cand)))
+    for (t, lab) in none:
+        p = edge_leads_only_to_raise(cfg, t, lab)
         ck.check(p is None, "G-DOM", "get_name|no-reading-raises-UndefinedUnitError", fi.loc(cfg.nodes[t].ast), "no reading raises", "a string with no reading does not raise", witness(cfg, p))
     ck.check(bool(none), "G-DOM", "get_name|no-reading-tested", fi.loc(), "empty candidate list tested", "the empty-candidates test is gone")
     # prefix on non-multiplicative units refused before registration
@@ -161,14 +391,19 @@ def run(ck, ix, tier):
     for (p, k, nd) in writes_in(fi.node):
         if p == "self._units" and k == "item-store":
             stores += cfg.nodes_for_ast(nd)
-    gate = [n.id for n in cfg.nodes if n.kind == "test" and "is_multiplicative" in norm(n.ast) and "unit_name" in norm(n.ast)]
+
+    def unit_is_multiplicative(a_):
+        """`self._units[<unit of the first reading>].is_multiplicative` (a local holding the definition is resolved)"""
+        b = shape.match("self._units[_U].is_multiplicative", shape.resolve(a_, fi.node)) if isinstance(a_, ast.Attribute) else None
+        return b is not None and b["_U"] in rd.units
+    nonmult = shape.guard_edges(cfg, unit_is_multiplicative, want=False)       # edges on which the unit is known to be an offset unit
+    gate = sorted({g for (g, lab) in nonmult})
     for s in live(cfg, stores):
         p = undominated(cfg, [s], gate)
         ck.check(bool(gate) and p is None, "G-DOM", "get_name|offset-units-not-prefixed", fi.loc(cfg.nodes[s].ast), "prefixed units are registered only after the multiplicativity test",
                  "a prefixed unit can be registered without testing that the unit is multiplicative (kilo-degC would be accepted)", witness(cfg, p))
-    for g in gate:
-        neg = isinstance(cfg.nodes[g].ast, ast.UnaryOp)
-        p = edge_leads_only_to_raise(cfg, g, "t" if neg else "f", also_forbid=stores)
+    for (g, lab) in sorted(set(nonmult)):
+        p = edge_leads_only_to_raise(cfg, g, lab, also_forbid=stores)
         ck.check(p is None, "G-DOM", "get_name|prefix-on-offset-unit-raises", fi.loc(cfg.nodes[g].ast), "prefixing an offset unit raises OffsetUnitCalculusError", "prefixing a non-multiplicative unit does not raise", witness(cfg, p))
     cas = [(p, k, nd) for (p, k, nd) in writes_in(fi.node) if "_units_casei" in p]
     ck.check(not cas, "G-OWN", "get_name|prefixed-units-not-in-casei-index", fi.loc(cas[0][2]) if cas else fi.loc(),
@@ -177,63 +412,38 @@ def run(ck, ix, tier):
     nst = [(p, k, nd) for (p, k, nd) in writes_in(fi.node) if p.startswith("self._units") and "casei" not in p]
     ck.check(len(nst) == 1, "G-OWN", "get_name|exactly-one-registration", fi.loc(nst[1][2]) if len(nst) > 1 else fi.loc(), "one registration, under the long name",
              f"get_name writes the unit table {len(nst)} times: extra spellings can shadow defined units")
-    for (p, k, nd) in nst[:1]:
-        key = norm(defs.inline(nd.targets[0].slice))
-        ck.check(key == "prefix + unit_name", "G-PROV", "get_name|registered-under-prefix+unit", fi.loc(nd), "stored under prefix + unit_name", f"stored under `{key}`")
-        v = nd.value
+    n_def = 0
+    for (p, k, nd) in nst:
+        if not (isinstance(nd, ast.Assign) and isinstance(nd.targets[0], ast.Subscript)):
+            ck.fail("G-PROV", "get_name|registered-under-prefix+unit", fi.loc(nd), f"the unit table is written by `{norm(nd)[:80]}`, not by an item assignment under prefix + unit")
+            continue
+        b = shape.match("_P + _U", shape.resolve(nd.targets[0].slice, fi.node))
+        ck.check(b is not None and b["_P"] in rd.prefixes and b["_U"] in rd.units, "G-PROV", "get_name|registered-under-prefix+unit", fi.loc(nd), "stored under prefix + unit_name",
+                 f"stored under `{rd.show(rd.r(nd.targets[0].slice))}`")
+        v = shape.resolve(nd.value, fi.node)
         if isinstance(v, ast.Call) and call_name(v) == "UnitDefinition":
-            a = [norm(defs.inline(x)) for x in v.args]
-            ck.check(a[0] == "prefix + unit_name" and a[3] == "self._prefixes[prefix].converter" and a[4] == "self.UnitsContainer({unit_name: 1})", "G-PROV", "get_name|prefix-applied-exactly-once", fi.loc(v),
-                     "name, converter and reference: prefix applied once to the unit", f"prefixed definition is UnitDefinition({', '.join(a)})")
+            n_def += 1
+            b = shape.match("UnitDefinition(_P + _U, _SYM, _ALIASES, self._prefixes[_P].converter, self.UnitsContainer({_U: 1}))", v)
+            ck.check(b is not None and b["_P"] in rd.prefixes and b["_U"] in rd.units, "G-PROV", "get_name|prefix-applied-exactly-once", fi.loc(nd.value),
+                     "name, converter and reference: prefix applied once to the unit", f"prefixed definition is {rd.show(norm(v))}")
+    if nst and not n_def:
+        ck.fail("G-PROV", "get_name|prefix-applied-exactly-once", fi.loc(nst[0][2]), "the prefixed unit registered by get_name is not built by UnitDefinition(prefix + unit, ..., prefix converter, {unit: 1})")
 
     # ------------------------------------------------------------ get_symbol
     fi = ix.func(PR, "GenericPlainRegistry.get_symbol")
     ck.analysed(fi)
-    rets = [r for r in walk_local(fi.node) if isinstance(r, ast.Return)]
-    ok = len(rets) == 1 and norm(rets[0].value) == "self._prefixes[prefix].symbol + self._units[unit_name].symbol"
-    ck.check(ok, "G-PROV", "get_symbol|prefix-symbol+unit-symbol", fi.loc(), "symbol = prefix symbol + unit symbol", f"get_symbol returns `{norm(rets[0].value) if rets else '?'}`")
-    cand = [a for a in walk_local(fi.node) if isinstance(a, ast.Assign) and isinstance(a.targets[0], ast.Tuple) and norm(a.value) == "candidates[0]"]
-    ck.check(len(cand) == 1 and [norm(e) for e in cand[0].targets[0].elts][:2] == ["prefix", "unit_name"], "G-PROV", "get_symbol|same-first-candidate", fi.loc(), "prefix and unit from the same first candidate", "prefix and unit are not taken from the same first candidate")
+    rd = FirstReading(fi.node)
+    rets = shape.returns_of(fi.node)
+    ck.floor("G-PROV", len(rets), 1, "value returned by get_symbol")
+    bs = [shape.match("self._prefixes[_P].symbol + self._units[_U].symbol", shape.resolve(r.value, fi.node)) for r in rets]
+    ck.check(len(rets) == 1 and bs[0] is not None, "G-PROV", "get_symbol|prefix-symbol+unit-symbol", fi.loc(), "symbol = prefix symbol + unit symbol", f"get_symbol returns `{rd.show(rd.r(rets[0].value))}`")
+    ck.check(all(b is None or (b["_P"] in rd.prefixes and b["_U"] in rd.units) for b in bs) and any(b is not None for b in bs), "G-PROV", "get_symbol|same-first-candidate", fi.loc(), "prefix and unit from the same first candidate",
+             "prefix and unit are not taken from the same first candidate: " + "; ".join(f"prefix `{rd.show(b['_P'])}`, unit `{rd.show(b['_U'])}`" for b in bs if b is not None))
 
     # ------------------------------------------------------------ parse_unit_name / _yield_unit_triplets / _dedup_candidates
-    fi = ix.func(PR, "GenericPlainRegistry.parse_unit_name")
-    ck.analysed(fi)
-    src = norm(fi.node)
-    ck.check("self.case_sensitive if case_sensitive is None else case_sensitive" in src and "self._dedup_candidates(self._yield_unit_triplets(unit_name, case_sensitive))" in src, "G-PROV", "parse_unit_name|defaults-and-dedup", fi.loc(),
-             "registry default for case sensitivity; candidates deduplicated", "parse_unit_name no longer defaults case_sensitive from the registry / dedups the candidates")
-    fi = ix.func(PR, "GenericPlainRegistry._yield_unit_triplets")
-    ck.analysed(fi)
-    ys = [y for y in walk_local(fi.node) if isinstance(y, ast.Yield)]
-    ck.check(len(ys) >= 1, "G-TWIN", "_yield_unit_triplets|two-branches", fi.loc(), "candidate triplets are yielded (each site checked below)", "no candidate triplet is yielded any more")
-    cs_tests = [t for t in ast.walk(fi.node) if isinstance(t, (ast.If, ast.IfExp)) and any(isinstance(x, ast.Name) and x.id == "case_sensitive" for x in ast.walk(t.test))]
-    ck.check(len(cs_tests) >= 1, "G-TWIN", "_yield_unit_triplets|case-sensitivity-distinguished", fi.loc(), "case-sensitive and case-insensitive lookups are distinguished", "the case_sensitive flag is no longer consulted")
-    shapes = []
-    for y in ys:
-        v = y.value
-        if isinstance(v, ast.Tuple) and len(v.elts) == 3:
-            a, b, c = [norm(e) for e in v.elts]
-            shapes.append((a, c))
-            ck.check(a == "self._prefixes[prefix].name", "G-TWIN", f"_yield_unit_triplets|canonical-prefix-name|{b[:30]}", fi.loc(y), "prefix reported by its canonical name", f"`{a}` is yielded as the prefix (must be the canonical name self._prefixes[prefix].name)")
-            ck.check(b.startswith("self._units[") and b.endswith("].name"), "G-TWIN", f"_yield_unit_triplets|canonical-unit-name|{b[:30]}", fi.loc(y), "unit reported by its canonical name", f"`{b}` is yielded as the unit (must be the canonical name)")
-            ck.check(c == "self._suffixes[suffix]", "G-TWIN", f"_yield_unit_triplets|canonical-suffix|{b[:30]}", fi.loc(y), "suffix reported canonically", f"`{c}` is yielded as the suffix")
-    src = norm(fi.node)
+    parse_unit_name_rule(ck, ix)
+    yield_triplets_rule(ck, ix)
     from .. import shape as _sht
-    prod = [l for l in walk_local(fi.node) if isinstance(l, ast.For) and norm(l.iter) in ("itertools.product(self._suffixes, self._prefixes)", "product(self._suffixes, self._prefixes)")]
-    ys_ = [y for y in ast.walk(fi.node) if isinstance(y, ast.Yield)]
-    framed = lambda y: _sht.holds_at(y, fi.node, lambda a_: norm(a_) in ("stw(prefix)", "unit_name.startswith(prefix)"), True) and _sht.holds_at(y, fi.node, lambda a_: norm(a_) in ("edw(suffix)", "unit_name.endswith(suffix)"), True)
-    ck.check(len(prod) == 1 and bool(ys_) and all(framed(y) for y in ys_), "G-PROV", "_yield_unit_triplets|all-prefix-suffix-combinations", fi.loc(), "all suffix x prefix combinations that frame the string", "candidates are no longer produced for exactly the (suffix, prefix) pairs that frame the string")
-    strips = [a_ for a_ in walk_local(fi.node) if isinstance(a_, ast.Assign) and isinstance(a_.value, ast.Subscript) and isinstance(a_.value.slice, ast.Slice)]
-    texts = {norm(a_.value) for a_ in strips}
-    stem = norm(strips[0].targets[0]) if strips else "name"
-    ck.check("unit_name[len(prefix):]" in texts and f"{stem}[:-len(suffix)]" in texts, "G-PROV", "_yield_unit_triplets|strips-prefix-and-suffix", fi.loc(), "prefix and suffix are stripped exactly", f"prefix/suffix stripping changed (off-by-one?): {sorted(texts)}")
-    one = [c_ for c_ in walk_local(fi.node) if isinstance(c_, ast.Compare) and norm(c_) == f"len({stem}) == 1"]
-    ck.check(len(one) == 1 and _sht.holds_at(one[0], fi.node, lambda a_: isinstance(a_, ast.Name) and a_.id == "suffix", True), "G-PROV", "_yield_unit_triplets|no-plural-of-one-letter-units", fi.loc(), "one-letter stems are not de-pluralised", "the one-letter plural exclusion is gone")
-    guard = [t for t in walk_local(fi.node) if isinstance(t, ast.If) and "prefix" in norm(t.test) and "_units_casei" in norm(t.test)]
-    ok = bool(guard) and any(isinstance(x, ast.Continue) for g in guard for x in ast.walk(g)) and all("not in" in norm(g.test) for g in guard)
-    ck.check(ok, "G-DOM", "_yield_unit_triplets|prefix-only-on-defined-spellings", fi.loc(guard[0]) if guard else fi.loc(),
-             "a prefix is only applied to defined spellings (not to prefixed units registered on the fly)",
-             "prefixes are applied to any key of the unit table, including prefixed units registered on the fly: 'kilomillifoot' is accepted after 'millifoot' was looked up, a fresh registry rejects it")
-    ck.check("self._units_casei.get(name.lower(), ())" in src, "G-PROV", "_yield_unit_triplets|casei-lookup-lowercases", fi.loc(), "case-insensitive lookup lower-cases the stem", "the case-insensitive lookup no longer lower-cases the stem")
     fi = ix.func(PR, "GenericPlainRegistry._dedup_candidates")
     ck.analysed(fi)
     src = norm(fi.node)
@@ -306,20 +516,22 @@ def run(ck, ix, tier):
     ck.check(bool(sc) and all(edge_leads_only_to_raise(cfg, t, lab) is None for (t, lab) in sc), "G-DOM", "_parse_units_as_container|scaling-factor-rejected", fi.loc(), "a numeric factor in a unit expression raises", "unit expressions with a scaling factor are no longer rejected")
     fi = ix.func(NR, "GenericNonMultiplicativeRegistry.parse_units_as_container")
     ck.analysed(fi)
-    src = norm(fi.node)
-    ck.check("if as_delta is None:" in src and "as_delta = self.default_as_delta" in src, "G-PROV", "parse_units_as_container|default_as_delta", fi.loc(), "as_delta defaults to the registry's default_as_delta", "as_delta no longer defaults to default_as_delta")
+    ck.check(defaults_from(fi.node, "as_delta", "self.default_as_delta") is not None, "G-PROV", "parse_units_as_container|default_as_delta", fi.loc(), "as_delta defaults to the registry's default_as_delta", "as_delta no longer defaults to default_as_delta")
 
     # ------------------------------------------------------------ attribute access and membership
     hooks = [(PR, "GenericPlainRegistry.__getattr__"), ("pint.facets.system.objects", "System.__getattr__"), ("pint.facets.system.objects", "Lister.__getattr__"), ("pint.facets.group.objects", "Group.__getattr__")]
     for mod, q in hooks:
         f = ix.func(mod, q)
         ck.analysed(f)
-        body = [s_ for s_ in f.node.body if not (isinstance(s_, ast.Expr) and isinstance(s_.value, ast.Constant))]
-        first = body[0] if body else None
-        ok = isinstance(first, ast.Expr) and isinstance(first.value, ast.Call) and call_name(first.value) == "getattr_maybe_raise" and [norm(a) for a in first.value.args] == ["self", "item"]
+        # the private-name check comes before everything else: every other statement of the hook is reached only through it
+        hcfg = cfg_of(f)
+        gate = nodes_with(hcfg, lambda x: isinstance(x, ast.Call) and shape.match("getattr_maybe_raise(self, item)", x) is not None)
+        rest = [n.id for n in hcfg.nodes if n.kind in ("stmt", "test", "for", "with") and n.id not in gate and not (isinstance(n.ast, ast.Expr) and isinstance(n.ast.value, ast.Constant))]
+        ok = bool(gate) and undominated(hcfg, rest, gate) is None
         ck.check(ok, "G-DOM", f"{q}|private-names-rejected-first", f.loc(), "getattr_maybe_raise(self, item) is the first statement", f"{q} no longer starts with getattr_maybe_raise(self, item)")
     f = ix.func(PR, "GenericPlainRegistry.__getattr__")
-    ck.check("return self.Unit(item)" in norm(f.node), "G-PROV", "registry.__getattr__|unit-of-name", f.loc(), "attribute access builds Unit(name)", "registry attribute access no longer returns self.Unit(item)")
+    rets = shape.returns_of(f.node)
+    ck.check(bool(rets) and all(shape.rnorm(r.value, f.node) == "self.Unit(item)" for r in rets), "G-PROV", "registry.__getattr__|unit-of-name", f.loc(), "attribute access builds Unit(name)", "registry attribute access no longer returns self.Unit(item)")
     f = ix.func(PR, "GenericPlainRegistry.__contains__")
     ck.analysed(f)
     hs = [h for t in walk_local(f.node) if isinstance(t, ast.Try) for h in t.handlers]
